@@ -126,7 +126,7 @@ Section Norm.
   Notation marshal_null := (marshal_null null_words).
 
   Lemma marshal_str_value s v : y_value (marshal_str s v) = v.
-  Proof. unfold marshal_str. destruct (needs_quote _ _ _); reflexivity. Qed.
+  Proof. unfold marshal_str. destruct (needs_quote _ _ _); cbv zeta; destruct (block_guard _ _); reflexivity. Qed.
 
   Lemma marshal_str_comments s v :
     y_head (marshal_str s v) = y_head (base_meta s) /\ y_line (marshal_str s v) = y_line (base_meta s)
@@ -134,13 +134,29 @@ Section Norm.
   Proof.
     unfold marshal_str.
     destruct (norm_tag_comments tag_str (base_meta s)) as (H1 & H2 & H3 & _).
-    destruct (needs_quote _ _ _); cbn; auto.
+    destruct (needs_quote _ _ _); cbv zeta; destruct (block_guard _ _); cbn; auto.
   Qed.
 
   Lemma marshal_str_tag s v : y_tag (marshal_str s v) = "" \/ y_tag (marshal_str s v) = tag_str.
   Proof.
     unfold marshal_str. destruct (norm_tag_tag tag_str (base_meta s)) as [H|H];
-      destruct (needs_quote _ _ _); cbn; auto.
+      destruct (needs_quote _ _ _); cbv zeta; destruct (block_guard _ _); cbn; auto.
+  Qed.
+
+  Lemma marshal_str_tag_eq s v : y_tag (marshal_str s v) = y_tag (norm_tag tag_str (base_meta s)).
+  Proof. unfold marshal_str. destruct (needs_quote _ _ _); cbv zeta; destruct (block_guard _ _); reflexivity. Qed.
+
+  (* the style MarshalYAML leaves on a string node: single-quoted when the text is number-like or a quoting word,
+     else double-quoted (block bits cleared) when the guard of fix 9b9d633 fires, else the style it had *)
+  Definition str_style (st : N) (v : string) : N :=
+    let st1 := if needs_quote quote_words pf v then st_single else st in
+    if block_guard st1 v then force_double st1 else st1.
+
+  Lemma marshal_str_style s v : y_style (marshal_str s v) = str_style (y_style (base_meta s)) v.
+  Proof.
+    unfold marshal_str, str_style. destruct (norm_tag_comments tag_str (base_meta s)) as (_ & _ & _ & _ & Hst).
+    destruct (needs_quote _ _ _); cbv zeta; cbn [set_style set_value y_style]; try rewrite Hst;
+      destruct (block_guard _ _); cbn; auto.
   Qed.
 
   (* the normal form MarshalYAML . unmarshalYAMLNode computes on a scalar of the accepted subset *)
